@@ -4,6 +4,7 @@ SPECIFICATION SSpec
 CONSTANTS
     NThreads = 2
     StoreOf <- MC_Store1
+    InstKind <- MC_Kind1
     NKeys = 3
     PropChoices <- MC_None
     Kinds <- MC_None
@@ -13,7 +14,7 @@ CONSTANTS
     MaxDepth = 2
     Panics = FALSE
     MaxSpans = 2
-    WithIncoming = TRUE
+    IncomingKinds <- MC_IncBoth
     WithLazy = FALSE
     Emit = TRUE
 VIEW sview
